@@ -62,10 +62,6 @@ Pats(cls) == CASE cls = "b2" -> <<0, 1, 2, 3>>
                [] cls = "b8" -> B8 [] cls = "b16" -> B16 [] cls = "b32" -> B32 [] cls = "b64" -> B64
                [] cls = "c64" -> C64 [] cls = "c128" -> C128 [] cls = "string" -> Str
 
-ZeroPat(cls) == CASE SubByte(cls) -> 0 [] cls = "string" -> <<>> [] OTHER -> Rpt(0, EBytes(cls))
-OnesPat(cls) == CASE SubByte(cls) -> 2 ^ Bits(cls) - 1 [] cls = "bool" -> <<1>> [] cls = "string" -> <<255, 254>>
-                  [] OTHER -> Rpt(255, EBytes(cls))
-
 PatKinds == {"zeros", "ones", "ramp", "rev", "alt"}
 CodesOf(cls, n, pat) ==
   LET P == Pats(cls) L == Len(P)
@@ -90,7 +86,7 @@ Tensors ==
 
 NoDst == [content |-> <<>>, pos |-> 0]
 
-NoRep == Rep("none", "-", "-", "-", FALSE, "-", FALSE)
+NoRep == Rep("none", "-", "-", "-", FALSE, "-", FALSE, "-")
 
 \* a logical tensor, not yet represented
 Init ==
@@ -160,7 +156,7 @@ StateRec ==
       rep |-> rep,
       base |-> Base(rep, t.cls),
       per |-> PerDType,
-      scodes |-> s.codes, sbytes |-> s.bytes, entries |-> s.entries, file |-> s.file, off |-> s.off, len |-> s.len,
+      scodes |-> s.codes, start |-> s.start, step |-> s.step, sbytes |-> s.bytes, entries |-> s.entries, file |-> s.file, off |-> s.off, len |-> s.len,
       bytes |-> IF hb THEN Pack(t.cls, t.codes) ELSE <<>>,
       nbytes |-> IF hb THEN NBytes(t.cls, t.n) ELSE -1,
       w |-> w, dk |-> dk,
